@@ -1804,6 +1804,12 @@ class FnTranslator:
             other = a or b
             if other is None:
                 raise Refuse('both branches NaN')
+            if other[1] in ('B', 'OB'):
+                # [loop ties e1] `v if c else None` with v a boolean / an optional boolean: the optional boolean (None on the
+                # None side, `Some v` / v on the other)
+                ta = 'None' if a is None else self.coerce(a, 'OB')
+                tb = 'None' if b is None else self.coerce(b, 'OB')
+                return ('(if %s then %s else %s)' % (c, ta, tb), 'OB')
             if other[1] in ('OQ', 'OZ'):
                 oty, wrap = other[1], (lambda t: t)
             else:
